@@ -57,8 +57,37 @@ UpdateClauses(ln, nt, e) ==
      <<"ValuePreserved", (ln.exc = "" /\ OnGrid(ln)) => ln.result = Scaled(Denote(nt, ln.out), e + ln.scale)>>,
      <<"OuterSame", ln.exc = "" => SeqRange(ln.outer_after) = SeqRange(ln.outer_before)>> >>
 
+\* <other|self> = sum over the outer labels of conj(other) * self   (the argument is conjugated)
+OverlapClauses(ln, nt, e) ==
+  LET a == Denote(nt, ln.out)
+      b == Denote(ln.other, ln.out)
+      ov == SumG(LAMBDA k : GMul(GConj(b[k]), a[k]), 1, Len(a)) IN
+  << <<"Returns", ln.exc = "">>,
+     <<"OnGrid", ln.exc = "" => OnGrid(ln)>>,
+     <<"OverlapExact", (ln.exc = "" /\ OnGrid(ln)) => ln.result = <<GScale(Pow10(e + ln.exp_other + ln.scale), ov)>> >> >>
+
+\* scalar multiples, negation and conjugation of the whole network
+ScaledClauses(ln, nt, e) ==
+  LET d == Denote(nt, ln.out)
+      expect == [k \in DOMAIN d |-> GMul(ln.c, IF ln.conj THEN GConj(d[k]) ELSE d[k])] IN
+  << <<"Returns", ln.exc = "">>,
+     <<"OnGrid", ln.exc = "" => OnGrid(ln)>>,
+     <<"ScalarMultipleExact", (ln.exc = "" /\ OnGrid(ln)) => ln.result = Scaled(expect, e + ln.scale)>> >>
+
+\* selecting one value of a label: the block of the dense form with that label (slowest) fixed
+IselClauses(ln, nt, e) ==
+  LET full == Denote(nt, <<ln.ix>> \o ln.out)
+      nout == Len(full) \div DimOf(nt, ln.ix)
+      blk == [k \in 1..nout |-> full[ln.k * nout + k]] IN
+  << <<"Returns", ln.exc = "">>,
+     <<"OnGrid", ln.exc = "" => OnGrid(ln)>>,
+     <<"SliceExact", (ln.exc = "" /\ OnGrid(ln)) => ln.result = Scaled(blk, e + ln.scale)>> >>
+
 Clauses(ln, nt, e) ==
   CASE ln.ev = "new"    -> << <<"SizesConsistent", SizesConsistent(ln.net)>> >>
+    [] ln.ev = "overlap2" -> OverlapClauses(ln, nt, e)
+    [] ln.ev = "scaled"   -> ScaledClauses(ln, nt, e)
+    [] ln.ev = "isel"     -> IselClauses(ln, nt, e)
     [] ln.ev = "route"  -> RouteClauses(ln, nt, e)
     [] ln.ev = "norm"   -> NormClauses(ln, nt, e)
     [] ln.ev = "linop"  -> LinopClauses(ln, nt, e)
